@@ -26,9 +26,12 @@ EXTENDS HttpRelay, Json
 
 TraceLog == ndJsonDeserialize("trace.ndjson")
 
-VARIABLES l, alarms, scen
+VARIABLES l, alarms, scen,
+          hold,     \* hand-over scenarios: round of the item with which the watch loop is parked at
+                    \* http.watch.locked holding pendingLk (0 = not parked)
+          canc      \* requests cancelled while the loop was parked there
 
-tvars == <<vars, l, alarms, scen>>
+tvars == <<vars, l, alarms, scen, hold, canc>>
 
 TraceW == 1..8
 
@@ -65,7 +68,8 @@ StateConf(e, lat, pend) ==
 TraceInit ==
   /\ latest = 0 /\ pending = {} /\ req = [w \in TraceW |-> TIdle]
   /\ stream = "off" /\ sent = 0 /\ head = 0 /\ cur = 1 /\ out = {} /\ act = <<"Init", 1>>
-  /\ l = 1 /\ alarms = {} /\ scen = "none"
+  /\ lk = "free" /\ wpc = WIdle /\ ch = [w \in TraceW |-> <<>>] /\ ctxd = [w \in TraceW |-> FALSE]
+  /\ l = 1 /\ alarms = {} /\ scen = "none" /\ hold = 0 /\ canc = {}
 
 StepReset(e) ==
   /\ e.ev = "Reset"
@@ -221,14 +225,81 @@ StepHarness(e) ==
   /\ alarms' = alarms \cup {Alarm("Harness", e, e.what, "", 0, 0)}
   /\ UNCHANGED <<latest, pending, req, stream, head, cur, scen>>
 
+\* ---- the hand-over at its real grain (C14).  RelayNotWedged is judged on what was observed: the watch
+\* loop leaves its critical section, every cancelled handler returns, and the relay answers afterwards.
+Wedge(e, part, kind, w) == Alarm("RelayNotWedged", e, part, kind, w, 0)
+
+\* the loop took item x, holds pendingLk and is parked at the hook (nothing is changed yet)
+StepWatchLock(e) ==
+  /\ e.ev = "WatchLock"
+  /\ hold' = e.x /\ canc' = {}
+  /\ alarms' = alarms \cup (IF ~e.parked THEN {Conf(e, "watch loop did not reach http.watch.locked")} ELSE {})
+                       \cup (IF stream # "conn" THEN {Conf(e, "item consumed while the specification has no open stream")} ELSE {})
+  /\ UNCHANGED <<latest, pending, req, stream, head, cur, scen>>
+
+\* the client of a parked request goes away.  While the loop holds the lock the handler cannot unregister
+\* (FDone, then it waits for FUnreg); otherwise this is the Timeout step.
+StepCancel(e) ==
+  /\ e.ev = "Cancel"
+  /\ LET w == e.w
+         held == hold # 0
+         goes == e.res = "resp"
+         pend2 == IF goes THEN pending \ {w} ELSE pending
+         A0 == IF req[w].pc # "parked" THEN {Conf(e, "cancel of a request that is not parked")} ELSE {}
+         A1 == IF held /\ goes THEN {Conf(e, "cancelled request returned although the watch loop holds pendingLk")}
+               ELSE IF ~held /\ ~goes THEN {Wedge(e, "handler-never-returned", "cancel", w)}
+               ELSE IF goes /\ ObsAbs(e.resp) # [status |-> 500, body |-> -1] THEN {Conf(e, "answer differs from the specification")}
+               ELSE {}
+         A2 == IF goes THEN Mon_C01_HTTP_Obs(e, w, req[w].round, e.resp, "other", "other", 0, 0) ELSE {}
+         A3 == IF ~held THEN StateConf(e, latest, pend2) ELSE {}
+     IN /\ pending' = pend2
+        /\ req' = [req EXCEPT ![w] = IF goes THEN TIdle ELSE req[w]]
+        /\ canc' = IF goes THEN canc ELSE canc \cup {w}
+        /\ alarms' = alarms \cup A0 \cup A1 \cup A2 \cup A3
+  /\ UNCHANGED <<latest, stream, head, cur, scen, hold>>
+
+\* the gate is opened: FRelease, FSend to every waiter, FUnlock, then FUnreg of the cancelled ones
+StepWatchRelease(e) ==
+  /\ e.ev = "WatchRelease"
+  /\ LET x == hold
+         rel == {p[1] : p \in Range(e.resps)}
+         rpOf(w) == (CHOOSE p \in Range(e.resps) : p[1] = w)[2]
+         exp(w) == IF w \in canc THEN [status |-> 500, body |-> -1]
+                   ELSE IF ItemServes(latest, x, req[w].round) THEN [status |-> 200, body |-> x]
+                   ELSE Direct(req[w].round, cur, head)
+         W1 == IF ~e.done THEN {Wedge(e, "watch-loop-blocked-holding-pendingLk", "release", 0)} ELSE {}
+         W2 == {Wedge(e, "handler-never-returned", "release", w) : w \in Range(e.stuck)}
+         A0 == IF hold = 0 THEN {Conf(e, "release of a watch loop that is not parked")} ELSE {}
+         A1 == IF e.done /\ rel # pending THEN {Conf(e, "set of released waiters differs from bh.pending of the specification")} ELSE {}
+         A2 == UNION {IF ObsAbs(rpOf(w)) # exp(w)
+                         THEN {Conf(e, "answer of a released request differs from the specification")} ELSE {} : w \in rel \cap pending}
+         A3 == UNION {Mon_C01_HTTP_Obs(e, w, req[w].round, rpOf(w), "other", "other", 0, 0) : w \in rel}
+         A4 == IF e.done /\ e.lat # x THEN {Conf(e, "latestRound is not the item's round")} ELSE {}
+         pend2 == pending \ rel
+         A5 == IF e.done /\ e.np # Cardinality(pend2) THEN {Conf(e, "length of bh.pending differs from the specification")} ELSE {}
+     IN /\ pending' = pend2
+        /\ req' = [w \in TraceW |-> IF w \in rel THEN TIdle ELSE req[w]]
+        /\ latest' = IF e.done THEN e.lat ELSE latest
+        /\ alarms' = alarms \cup W1 \cup W2 \cup A0 \cup A1 \cup A2 \cup A3 \cup A4 \cup A5
+  /\ hold' = 0 /\ canc' = {}
+  /\ UNCHANGED <<stream, head, cur, scen>>
+
+\* a fresh request after the behaviour
+StepProbe(e) ==
+  /\ e.ev = "Probe"
+  /\ alarms' = alarms \cup (IF ~e.ok THEN {Wedge(e, "probe-not-answered", e.kind, 0)} ELSE {})
+  /\ UNCHANGED <<latest, pending, req, stream, head, cur, scen, hold, canc>>
+
 TraceNext ==
   /\ l <= Len(TraceLog)
   /\ LET e == TraceLog[l] IN
-       \/ StepReset(e) \/ StepReqStart(e) \/ StepReqCheck2(e) \/ StepWatchItem(e) \/ StepStreamFail(e)
-       \/ StepReconnect(e) \/ StepTimeout(e) \/ StepReqLatest(e) \/ StepNodeAdvance(e) \/ StepMisc(e)
-       \/ StepHarness(e)
+       \/ (StepReset(e) /\ hold' = 0 /\ canc' = {})
+       \/ ((\/ StepReqStart(e) \/ StepReqCheck2(e) \/ StepWatchItem(e) \/ StepStreamFail(e)
+            \/ StepReconnect(e) \/ StepTimeout(e) \/ StepReqLatest(e) \/ StepNodeAdvance(e) \/ StepMisc(e)
+            \/ StepHarness(e)) /\ UNCHANGED <<hold, canc>>)
+       \/ StepWatchLock(e) \/ StepCancel(e) \/ StepWatchRelease(e) \/ StepProbe(e)
   /\ l' = l + 1
-  /\ UNCHANGED <<sent, out, act>>
+  /\ UNCHANGED <<sent, out, act, fvars>>
 
 TraceSpec == TraceInit /\ [][TraceNext]_tvars
 
